@@ -42,6 +42,7 @@ struct IoStats {
     uint64_t sink_writes = 0, sink_bytes = 0, sink_seeks = 0, sink_closes = 0;
     uint64_t src_reads = 0, src_seeks = 0, fopens = 0, mmaps = 0, munmaps = 0;
     uint64_t fwrite_calls = 0, fflush_calls = 0, fclose_calls = 0, fread_calls = 0, fseek_calls = 0;
+    uint64_t fsyncs = 0;
     bool sink_fault_fired = false, src_fault_fired = false;
     int in_flush = 0;
     int open_streams = 0, open_fds = 0, live_maps = 0;
